@@ -30,6 +30,8 @@ def run(ctx):
         d = T.gen_dcase(r)
         if i % 3 != 2:
             d['force'] = 1
+            if d['nthr'] > 0 and r.random() < 0.5:
+                d['blockers'] = r.choice([32 * d['nthr'] + 1, 33 * d['nthr'] + 2, 3 * d['nthr'] + 1])
             d['canceled'] = d['canceled'] if r.random() < 0.3 else 0
             if d['cls'] != 3 and r.random() < 0.4:
                 d['bulk'] = r.choice([1, 2, 5])
@@ -39,6 +41,7 @@ def run(ctx):
     res = T.run_decisions(ctx, exe, ds, 'judge_C47_d')
     if res is None:
         ctx.broken.append('correspondence D(C47): the decision judge no longer evaluates')
+        T.d_fallback(ctx, exe, ds, on_d)
         res = []
     hist = {}
     for d, v, o, x in res:
